@@ -407,6 +407,7 @@ static ssize_t k_read_iov(int fd, const struct iovec* iov, int cnt) {
     memcpy(iov[0].iov_base, &n, 8);
     if (n > 1) sim_probe("timer_coalesced", 1);
     TR("[%lu] t%d timerfd read -> %lu expirations\n", g_steps, me, n);
+    sim_internal_timer_was_read();
     return 8;
   }
   if (k->kind == KF_UNCONN || k->kind == KF_CONNECTING || k->kind == KF_LISTEN) return note(-1, k->kind == KF_LISTEN ? EINVAL : ENOTCONN, 0, 0);
